@@ -30,6 +30,11 @@ type C09Sc struct {
 	// under test is created, or after it (negative): executors are independent of each other
 	Sibling int `json:"sibling,omitempty"`
 	Chunk   int `json:"chunk,omitempty"`
+	// Reconf / ReconfAt: the executor is given another supported set (bitmask) while in service: the first ReconfAt
+	// requests run to completion under the initial set, then SetSupportedProtocolVersions is called again, then the
+	// others run. Each request is judged by the set in force when it ran
+	Reconf   int `json:"reconf,omitempty"`
+	ReconfAt int `json:"reconf_at,omitempty"`
 }
 
 var c09Outcomes = []ItemSc{
@@ -96,6 +101,10 @@ func genC09(g *simrt.Tape, tier string) any {
 		}
 	}
 	sc.Chunk = []int{simnet.ChunkMax, simnet.ChunkRandom}[g.Draw(2)]
+	if len(sc.Reqs) > 1 && g.Draw(5) == 0 {
+		sc.Reconf = 1 + g.Draw(31)
+		sc.ReconfAt = 1 + g.Draw(len(sc.Reqs)-1)
+	}
 	return sc
 }
 
@@ -294,11 +303,26 @@ func execC09(x *X, scAny any) {
 	resps := make([]*kmip.ResponseMessage, len(sc.Reqs))
 	errs := make([]error, len(sc.Reqs))
 	done := 0
+	reconfDone := sc.Reconf == 0
+	gate := func(i int) {
+		if sc.Reconf != 0 && i >= sc.ReconfAt {
+			s.WaitUntil("reconfigured", func() bool { return reconfDone })
+		}
+	}
+	if sc.Reconf != 0 {
+		s.Spawn("reconfigure", func() {
+			s.WaitUntil("first-phase-done", func() bool { return done >= min(sc.ReconfAt, len(sc.Reqs)) })
+			s.Fault("supported-versions-changed-in-service")
+			w.exec.SetSupportedProtocolVersions(setOf(sc.Reconf)...)
+			reconfDone = true
+		})
+	}
 	if !sc.EndToEnd {
 		for i := range sc.Reqs {
 			i := i
 			s.Spawn(fmt.Sprintf("req%d", i), func() {
 				defer func() { done++ }()
+				gate(i)
 				prefix := fmt.Sprintf("r%d", i)
 				resps[i] = w.exec.HandleRequest(w.requestContext(&sc.Reqs[i], prefix), buildRequest(&sc.Reqs[i], prefix))
 			})
@@ -309,6 +333,7 @@ func execC09(x *X, scAny any) {
 			i := i
 			s.Spawn(fmt.Sprintf("client%d", i), func() {
 				defer func() { done++ }()
+				gate(i)
 				dial := 0
 				c, err := kmipclient.DialContext(context.Background(), "sim", kmipclient.EnforceVersion(kmip.V1_4),
 					kmipclient.WithDialerUnsafe(func(ctx context.Context) (conn netConn, err error) {
@@ -342,7 +367,11 @@ func execC09(x *X, scAny any) {
 			x.Reportf("C09.transport-error", "roundtrip", "request r%d failed on a healthy transport: %v", i, errs[i])
 			continue
 		}
-		checkBatch(x, "C09", &sc.Reqs[i], fmt.Sprintf("r%d", i), supported, resps[i], w.trace, "")
+		sup := supported
+		if sc.Reconf != 0 && i >= sc.ReconfAt {
+			sup = setOf(sc.Reconf)
+		}
+		checkBatch(x, "C09", &sc.Reqs[i], fmt.Sprintf("r%d", i), sup, resps[i], w.trace, "")
 	}
 }
 
@@ -440,6 +469,14 @@ func init() {
 			{Name: "supported-set-spellings", Count: func(string) int { return 3 * 4 * 9 }, Scenario: func(_ string, i int) any {
 				return &C09Sc{Supported: []int{5, 20, 31}[i%3], SupportedSpelling: (i / 3) % 4,
 					Reqs: []ReqSc{{Version: i / 12, Option: 1, Items: []ItemSc{{Tok: "ok"}, {Tok: "ok"}}}}}
+			}},
+			{Name: "reconfigured-in-service", Count: func(string) int { return 5 * 5 * 4 }, Scenario: func(_ string, i int) any {
+				// initial set (default or restricted), new set, version of the requests before and after
+				ini := []int{0, 31, 3, 24, 4}[i%5]
+				neu := []int{3, 24, 31, 1, 16}[(i/5)%5]
+				v := []int{0, 1, 3, 4}[i/25]
+				rq := func() ReqSc { return ReqSc{Version: v, Option: 1, Items: []ItemSc{{Tok: "ok"}, {Tok: "ok"}}} }
+				return &C09Sc{Supported: ini, Reconf: neu, ReconfAt: 1, EndToEnd: i%2 == 1, Reqs: []ReqSc{rq(), rq(), rq()}}
 			}},
 			{Name: "item-id-spellings", Count: func(string) int { return 6 * 4 * 3 }, Scenario: func(_ string, i int) any {
 				toks := [][]ItemSc{{{Tok: "ok"}, {Tok: "ok"}, {Tok: "ok"}}, {{Tok: "ok"}, {Tok: "et"}, {Tok: "ok"}, {Tok: "ok"}}, {{Tok: "ok"}, {Tok: "ok", NoID: true}, {Tok: "pe"}, {Tok: "ok"}, {Tok: "ok"}}}
